@@ -76,8 +76,10 @@ class TU:
             self._loc(n['range'].get('end'))
         nid = n.get('id')
         if nid:
-            self.by_id[nid] = n
-            self.parent[nid] = parent
+            old = self.by_id.get(nid)
+            if old is None or ('inner' in n and 'inner' not in old):
+                self.by_id[nid] = n
+                self.parent[nid] = parent
         if n.get('kind') == 'LabelStmt' and 'declId' in n:
             self.by_id.setdefault(n['declId'], {'kind': 'LabelDecl', 'name': n['name']})
         kind = n.get('kind', '')
